@@ -90,3 +90,27 @@ _ladder("hash_merge_mode", "HashMergeOpts", "hashes", "DEEP")
 _ladder("array_merge_mode", "ArrayMergeOpts", "arrays", "ALL")
 _ladder("aoh_merge_mode", "AoHMergeOpts", "aoh", "ALL")
 _ladder("set_merge_mode", "SetMergeOpts", "sets", "UNIQUE")
+
+
+@contract(MC + "_get_key_for", props=["C05", "C11"])
+class GetKeyFor:
+    params = {"node_coord": "NodeCoords"}
+    assume_fields = {"self.config": "Any", "self.keys": "Dict[NodeCoords, str]"}
+    raises = []
+    opts = {"returns": "str", "pure": True}
+
+
+@contract(MC + "aoh_merge_key", props=["C05", "C11"])
+class AohMergeKey:
+    """Identity key of an Array-of-Hashes: the [keys] entry naming the node; else the entry naming its parent;
+    else the first key of the record at hand."""
+    params = {"node_coord": "NodeCoords", "data": "dict"}
+    assume_fields = {"self.config": "Any", "self.keys": "Dict[NodeCoords, str]"}
+    raises = []
+    loops = {
+        "for eval_nc, eval_key in self.keys.items()": {
+            "body_ensures": ["exited == (node_coord.parent == eval_nc.node)", "implies(exited, merge_key is eval_key)"],
+        },
+    }
+    ensures = ["implies(bool(self._get_key_for(node_coord)), result == self._get_key_for(node_coord))"]
+    opts = {"heap_fields": {"NodeCoords.node": "Any", "NodeCoords.parent": "Any", "NodeCoords.parentref": "Any"}}
